@@ -454,6 +454,25 @@ func (r *run) c1Delta(c1 ring.Poly, c1NTT bool, sIn, sOut *rlwe.SecretKey, lvl i
 	return out
 }
 
+// Every party runs its own protocol instance, as a deployment with one goroutine per party does: party 0 the
+// constructed one, odd parties a ShallowCopy of it, the other even parties a copy of a copy.
+type shallow[T any] interface{ ShallowCopy() T }
+
+func partyInst[T shallow[T]](cache map[int]T, base T, i int) T {
+	if i == 0 {
+		return base
+	}
+	if v, ok := cache[i]; ok {
+		return v
+	}
+	v := base.ShallowCopy()
+	if i%2 == 0 {
+		v = v.ShallowCopy()
+	}
+	cache[i] = v
+	return v
+}
+
 func (r *run) protoKS(target string) *proto {
 	p := r.s.p
 	pr, err := multiparty.NewKeySwitchProtocol(p, r.noiseDist())
@@ -464,6 +483,7 @@ func (r *run) protoKS(target string) *proto {
 		}
 		return r.skOut[i]
 	}
+	ksInst := map[int]multiparty.KeySwitchProtocol{}
 	lvl := r.ct.Level()
 	allocLvl := lvl
 	if r.c.Sc == "other" { // shares allocated at the top level: GenShare brings them to the ciphertext's level
@@ -471,6 +491,7 @@ func (r *run) protoKS(target string) *proto {
 	}
 	return &proto{name: target, tag: target,
 		gen: func(i int) wobj {
+			pr := partyInst(ksInst, pr, i)
 			s := pr.AllocateShare(allocLvl)
 			pr.GenShare(r.sks[i], outKey(i), r.ct, &s)
 			return &s
@@ -535,8 +556,10 @@ func (r *run) protoPKS() *proto {
 	pr, err := multiparty.NewPublicKeySwitchProtocol(p, r.noiseDist())
 	tr.Must(err)
 	lvl := r.ct.Level()
+	pksInst := map[int]multiparty.PublicKeySwitchProtocol{}
 	return &proto{name: "pks", tag: "pks",
 		gen: func(i int) wobj {
+			pr := partyInst(pksInst, pr, i)
 			s := pr.AllocateShare(lvl)
 			pr.GenShare(r.sks[i], r.pkOut, r.ct, &s)
 			return &s
@@ -663,8 +686,10 @@ func (r *run) protoRefreshB() *proto {
 	crp := pr.SampleCRP(r.c.OutLvl, crs)
 	f := r.bgvFunc()
 	name := r.c.Proto
+	trInst := map[int]mpbgv.MaskedTransformProtocol{}
 	return &proto{name: name, tag: name,
 		gen: func(i int) wobj {
+			pr := partyInst(trInst, pr, i)
 			s := pr.AllocateShare(r.ct.Level(), r.c.OutLvl)
 			if err := pr.GenShare(r.sks[i], r.sks[i], r.ct, crp, f, &s); err != nil {
 				panic(err)
@@ -711,8 +736,10 @@ func (r *run) protoRefreshC() *proto {
 	f := r.ckksFunc()
 	name := r.c.Proto
 	lb := r.logBound()
+	trInst := map[int]mpckks.MaskedLinearTransformationProtocol{}
 	return &proto{name: name, tag: name,
 		gen: func(i int) wobj {
+			pr := partyInst(trInst, pr, i)
 			s := pr.AllocateShare(r.ct.Level(), r.c.OutLvl)
 			if err := pr.GenShare(r.sks[i], r.sks[i], lb, r.ct, crp, f, &s); err != nil {
 				panic(err)
@@ -748,9 +775,12 @@ func (r *run) protoE2S() *proto {
 		tr.Must(err)
 		priv := make([]multiparty.AdditiveShare, r.n)
 		lvl := r.ct.Level()
+		e2sInst := map[int]mpbgv.EncToShareProtocol{}
+		s2eInst := map[int]mpbgv.ShareToEncProtocol{}
 		pr := &proto{name: name, tag: name,
 			gen: func(i int) wobj {
 				priv[i] = mpbgv.NewAdditiveShare(p)
+				e2s := partyInst(e2sInst, e2s, i)
 				s := e2s.AllocateShare(lvl)
 				e2s.GenShare(r.sks[i], r.ct, &priv[i], &s)
 				return &s
@@ -809,7 +839,7 @@ func (r *run) protoE2S() *proto {
 				if i == 0 {
 					add = collected
 				}
-				if err := s2e.GenShare(r.sks[i], crp, add, &sh); err != nil {
+				if err := partyInst(s2eInst, s2e, i).GenShare(r.sks[i], crp, add, &sh); err != nil {
 					return final{}, err
 				}
 				if i == 0 {
@@ -837,9 +867,12 @@ func (r *run) protoE2S() *proto {
 	priv := make([]multiparty.AdditiveShareBigint, r.n)
 	lvl := r.ct.Level()
 	lb := r.logBound()
+	e2sInst := map[int]mpckks.EncToShareProtocol{}
+	s2eInst := map[int]mpckks.ShareToEncProtocol{}
 	pr := &proto{name: name, tag: name,
 		gen: func(i int) wobj {
 			priv[i] = mpckks.NewAdditiveShare(p, r.ct.LogSlots())
+			e2s := partyInst(e2sInst, e2s, i)
 			s := e2s.AllocateShare(lvl)
 			if err := e2s.GenShare(r.sks[i], lb, r.ct, &priv[i], &s); err != nil {
 				panic(err)
@@ -897,7 +930,7 @@ func (r *run) protoE2S() *proto {
 			if i == 0 {
 				add = collected
 			}
-			if err := s2e.GenShare(r.sks[i], crp, r.ct.MetaData, add, &sh); err != nil {
+			if err := partyInst(s2eInst, s2e, i).GenShare(r.sks[i], crp, r.ct.MetaData, add, &sh); err != nil {
 				return final{}, err
 			}
 			if i == 0 {
